@@ -187,7 +187,10 @@ def tr1(ctx, R):
         key = "%s::scaler values = byte columns" % f.qual
         OFF = ("method", "byte_offset", S, (), ())
         SIZE = ("attr", ("attr", S, "data_type"), "size")
-        m = match(("method", "from_bytes", ("attr", S, "data_type"), (("method", "ravel", ("sub", W("buf"), ("tuple", (("slice", ("const", None), ("const", None), ("const", None)), W("cols")))), (), ()), W("end")), ()), val)
+        m = None
+        for flat_ in ("ravel", "flatten"):
+            m = m or match(("method", "from_bytes", ("attr", S, "data_type"), (("method", flat_, ("sub", W("buf"), ("tuple", (("slice", ("const", None), ("const", None), ("const", None)), W("cols")))), (), ()), W("end")), ()), val)
+        m = m or match(("method", "from_bytes", ("attr", S, "data_type"), (("method", "reshape", ("sub", W("buf"), ("tuple", (("slice", ("const", None), ("const", None), ("const", None)), W("cols")))), (("const", -1),), ()), W("end")), ()), val)
         if m is None:
             if find(val, ("method", "from_bytes", W(), W(), W())) or find(val, ("method", "view", W(), W(), W())) or find(val, ("sub", W(), W())):
                 R.violation(key, f.where(c), "scaler values are produced by `%s`, which does not select the byte columns [byte_offset, byte_offset + size) "
@@ -200,7 +203,9 @@ def tr1(ctx, R):
         ok_cols = cols in (("call", "tuple", (("call", "range", (OFF, ("binop", "+", (OFF, SIZE))), ()),), ()),
                            ("call", "tuple", (("call", "range", (OFF, ("binop", "+", (SIZE, OFF))), ()),), ()),
                            ("call", "list", (("call", "range", (OFF, ("binop", "+", (OFF, SIZE))), ()),), ()),
-                           ("call", "range", (OFF, ("binop", "+", (OFF, SIZE))), ()))
+                           ("call", "range", (OFF, ("binop", "+", (OFF, SIZE))), ()),
+                           # a basic slice selects the same columns (as a view; whether the bytes are then modified in place is DL1's / OW3's question)
+                           ("slice", OFF, ("binop", "+", (OFF, SIZE)), ("const", None)), ("slice", OFF, ("binop", "+", (SIZE, OFF)), ("const", None)))
         if not ok_cols and cols[0] == "method" and not cols[3]:
             # the columns come from a method of the scaler (scaler.byte_columns()): every definition of that name in the module must
             # be the range byte_offset .. byte_offset + size of its own object
@@ -211,6 +216,21 @@ def tr1(ctx, R):
         else:
             R.check(ok_cols, "%s::byte_columns" % f.qual, f.where(c), "columns byte_offset .. byte_offset + size - 1 of the scaler that is post-processed",
                     "byte columns are `%s`" % show(alpha(cols))[:160])
+        if cols and cols[0] == "slice" and not find(val, ("method", "flatten", W(), W(), W())):
+            # a basic slice of the rows flattened with ravel()/reshape(-1) can be a VIEW of the buffer that all scalers of this raw
+            # buffer are cut from (it is one whenever the columns cover the whole row): then nothing that post-processes the
+            # values may work in place, or the scalers of one buffer overwrite each other's bytes
+            from .alias import AliasWalker, Summaries, ALIAS
+            summ = Summaries(prog, modules={"daqmx"})
+            for pp in [m_ for m_ in prog.functions.values() if m_.module.name == "daqmx" and m_.name == "postprocess_data" and m_.cls is not None]:
+                prot = {p_ for p_ in pp.params if p_ != "self"}
+                w_ = AliasWalker(prog, pp, prot, summaries=summ).run()
+                bad_ = [x for x in w_.mutations if x.kind == ALIAS]
+                R.check(not bad_, "%s::works on a copy" % pp.qual, pp.where(bad_[0].node) if bad_ else pp.where(),
+                        "no in-place operation on the values it is given (they can be a view of the shared row buffer)",
+                        "%s modifies `%s` in place while `%s` hands it a slice of the shared row buffer flattened without a copy: when a scaler's columns "
+                        "cover the whole row this is a view, and the scalers (digital lines) of one buffer overwrite each other's bytes" % (
+                            bad_[0].how if bad_ else "", bad_[0].name if bad_ else "", f.qual))
         buf = m["buf"]
         from_reader = buf[0] == "call" and buf[1] == keep[0]
         if buf[0] == "param":
